@@ -35,6 +35,9 @@ def _ray2d(z, x, zgrad, xgrad, zend, xend, zsrc, xsrc, stepsize, max_step, honor
     ray = np.empty((max_step, 2), dtype=np.float64)
     ray[0] = pcur.copy()
     while dist2d(zsrc, xsrc, pcur[0], pcur[1]) >= stepsize:
+        if count >= max_step:
+            raise RuntimeError("maximum number of steps reached")
+
         gz = interp2d(z, x, zgrad, pcur)
         gx = interp2d(z, x, xgrad, pcur)
         gn = norm2d(gz, gx)
@@ -66,8 +69,8 @@ def _ray2d(z, x, zgrad, xgrad, zend, xend, zsrc, xsrc, stepsize, max_step, honor
                 j = np.searchsorted(x, pcur[1], side="right") - 1
                 lower[0] = z[max(i - 1, 0)] if pcur[0] == z[i] else z[i]
                 lower[1] = x[max(j - 1, 0)] if pcur[1] == x[j] else x[j]
-                upper[0] = z[i + 1]
-                upper[1] = x[j + 1]
+                upper[0] = z[min(i + 1, nz - 1)]
+                upper[1] = x[min(j + 1, nx - 1)]
 
                 ray[count] = pcur.copy()
                 count += 1
@@ -83,8 +86,8 @@ def _ray2d(z, x, zgrad, xgrad, zend, xend, zsrc, xsrc, stepsize, max_step, honor
             ray[count] = pcur.copy()
             count += 1
 
-        if count >= max_step:
-            raise RuntimeError("maximum number of steps reached")
+    if count >= max_step:
+        raise RuntimeError("maximum number of steps reached")
 
     ray[count] = np.array([zsrc, xsrc], dtype=np.float64)
 
